@@ -52,8 +52,12 @@ def run_case(ctx):
     common.draw_env(ctx)
     common.prelude(ctx)
     m = world.gen_world(src, scale=("hugebox", "manyboxes", "farcorner", "manyfields"), lowprec_ok=True)
-    path, _ = common.materialise(ctx, m)
     req, names = draw_selection(src, m)
+
+    def warm(p):
+        from amr_kitchen.colander.colander import Colander
+        run_tool(ctx, lambda: Colander(plotfile=p, output=os.path.join(ctx.scratch, "warm_out"), variables=list(req)).strain())
+    path_arg, hcwd, path, hmode = common.history_materialise(ctx, m, warm)
     limit = None
     if src.flag("limit"):
         limit = src.draw("limit.v", 0, m.nlev - 1)
@@ -65,6 +69,9 @@ def run_case(ctx):
     out_abs = os.path.join(work, "out_plt")
     out_arg = "out_plt" if rel_out else out_abs
     in_arg = os.path.relpath(path, work) if rel_in else path
+    if hmode == "rel-cwd":
+        # the history fixes the invocation form: relative name from the second run directory
+        in_arg, work, out_arg = path_arg, hcwd, out_abs
     o = run_colander(ctx, m, path, req, limit, out_arg, work, cli, in_arg)
     sig = {"property": ID, "entry": "cli" if cli else "api", "ndims": m.ndims}
     if not o.ok:
